@@ -324,6 +324,17 @@ def queries(rng, d, k, kw, hdr, frac=1.0):
         add("hint_name %d %s" % (h, hx(q)))
         if b"\0" not in q:
             add("import byname %d %s" % (h, hx(q)))
+    # `Export::symbol()` / `Export::forward()` of a lookup's answer: every entry of the address table (symbols,
+    # forwarders, holes, one beyond), every hint, the member names, the ordinals around the base
+    for i in list(range(n)) + [n, nfn]:
+        add("symfwd index %d" % i)
+    for h in list(range(m)) + [m]:
+        add("symfwd hint %d" % h)
+    for o in sorted(set((base + i) & 0xFFFF for i in (-1, 0, 1, n - 1, n))):
+        add("symfwd ordinal %d" % o)
+    for h, nm in members:
+        add("symfwd name %s" % hx(nm))
+    add("symfwd name %s" % hx(b"nonexistent"))
     return out
 
 
@@ -338,7 +349,7 @@ def case_for(rng, b, frac=1.0):
         if mode == "view" and rng.random() < 0.25:
             base = rng.choice([0, 0x1000, 0xFFFFF000, 0xFFFFFFFF, (1 << 64) - 0x2000, (1 << 64) - 1]) & ((1 << b.bits) - 1)
             k = "%s@0x%x" % (k, base)
-        case = [img_line(rng, buf), "exports %s dump" % k, "exports %s dump" % kw]
+        case = [img_line(rng, buf), "exports %s dump" % k, "exports %s dump" % kw, "exports %s by" % k, "exports %s by" % kw]
         case += queries(rng, b.d, k, kw, b.d.hdr, frac)
         cases.append(case)
     return cases
@@ -382,6 +393,25 @@ def gen_exports_shapes(rng, tier):
         mk(F, [(b"Alpha", 0), (b"Alpha", 3), (b"Beta", 2), (b"Beta", 4)])   # duplicates, sorted
         mk(F, [(b"Beta", 2), (b"Alpha", 0), (b"Beta", 4), (b"Alpha", 3)])   # duplicates, unsorted
         mk(F, [(b"", 0), (b"a", 3), (b"a\x01", 4), (b"ab", 5), (b"b", 2)])  # prefixes, empty name
+        # --- lookups by name where the answer is NOT a function of the tables (acceptable-answer set) ---
+        eight = [b"Alpha", b"Beta", b"Delta", b"Gamma", b"Kappa", b"Omega", b"Sigma", b"Zeta"]
+        mk(F, [(nm, i % 6) for i, nm in enumerate(reversed(eight))], bits=bits)          # descending: the binary search misses most names
+        mk(F, [(nm, i % 6) for i, nm in enumerate(eight[4:] + eight[:4])], bits=bits)    # rotated: one descent
+        mk(F, [(nm, (i * 5) % 6) for i, nm in enumerate([eight[i] for i in (0, 2, 1, 3, 5, 4, 7, 6)])])   # neighbours swapped
+        # a duplicated name, sorted: adjacent pair / triple; the copies denote a symbol, a forwarder, a hole, an index beyond the table
+        mk(F, [(b"Alpha", 0), (b"Beta", 3), (b"Beta", 2), (b"Gamma", 4)], bits=bits)
+        mk(F, [(b"Alpha", 0), (b"Beta", 1), (b"Beta", 3), (b"Beta", 5), (b"Gamma", 4)])  # hole, symbol, forwarder
+        mk(F, [(b"Beta", 1), (b"Beta", 1), (b"Beta", 1)])                                # every copy a hole
+        mk(F, [(b"Alpha", 6), (b"Alpha", 0), (b"Beta", 0xFFFF), (b"Beta", 2)])           # a copy with an index beyond the address table
+        mk(F, [(b"a", 0), (b"a", 3), (b"a", 4), (b"a", 0), (b"a", 2), (b"a", 5), (b"a", 1)])   # one name seven times
+        # duplicated AND out of order: the copies on both sides of the probe sequence
+        mk(F, [(b"Gamma", 4), (b"Alpha", 0), (b"Gamma", 3), (b"Beta", 2), (b"Alpha", 5), (b"Gamma", 1)], bits=bits)
+        mk(F, [(b"Zeta", 0), (b"Alpha", 3), (b"Zeta", 2), (b"Alpha", 4), (b"Zeta", 5)])
+        # out of order with a name that cannot be read: the search may answer that read's failure
+        mk(F, [(b"Gamma", 4), (("rva", 0x10000000), 0), (b"Alpha", 3), (b"Beta", 2)])
+        mk(F, [(b"Beta", 2), (b"Alpha", 0), (("rva", 0), 3), (b"Gamma", 4), (b"Delta", 5)])
+        # names outnumber the ordinal table / the ordinal table is null: a found name answers Bounds
+        mk(F, [(b"Beta", 2), (b"Alpha", 0), (b"Beta", 4)], over={"aor": 0})
         for base in (0, 1, 0xFFFF, 0xFFFC, 0x10000, U32):
             mk(F, sorted_names, base=base)
         for key in ("afn", "anm", "aor"):
@@ -451,9 +481,11 @@ def gen_exports_corpus(rng, tier):
             continue
         bits, names = parse_names(data)
         k = "f%d" % bits
-        case = [img_line(rng, data, 0, "e"), "exports %s dump" % k, "exports wf dump"]
+        case = [img_line(rng, data, 0, "e"), "exports %s dump" % k, "exports wf dump", "exports %s by" % k, "exports wf by"]
         for h, nm in enumerate(names[:24]):
             for kk in (k, "wf"):
+                case.append("export %s symfwd name %s" % (kk, hx(nm)))
+                case.append("export %s symfwd hint %d" % (kk, h))
                 case.append("export %s name %s" % (kk, hx(nm)))
                 case.append("export %s name_linear %s" % (kk, hx(nm)))
                 case.append("export %s hint_name %d %s" % (kk, h, hx(nm)))
@@ -470,5 +502,7 @@ def gen_exports_corpus(rng, tier):
             case.append("export %s name_lookup %d" % (k, i))
             case.append("export %s name_of_hint %d" % (k, i))
             case.append("export %s proc ordinal %d" % (k, i))
+            case.append("export %s symfwd index %d" % (k, i))
+            case.append("export wf symfwd ordinal %d" % i)
         cases.append(case)
     return cases
